@@ -88,7 +88,8 @@ static void on_point(int id, long a, long b) {
     if (bm == 1) d = (nb - 1 - std::min(a, nb - 1)) * unit;            // reversed completion order
     else if (bm == 2) d = ((a + nb / 2) % nb) * unit;                    // rotated
     else if (bm == 3) d = (long)(mix(seed, (uint64_t)a) % (uint64_t)(nb * unit + 1));
-    sleep_us(std::min<long>(d, 200000));
+    // (the forced order costs at most ~4 s of sleeping per build, however many blocks there are)
+    sleep_us(std::min<long>(d, std::max<long>(200, std::min<long>(200000, 4000000 / nb))));
     return;
   }
   if (id == PT_BLOCK_QUEUED && bm == 4) { sleep_us((long)(mix(seed, (uint64_t)a + 77) % (uint64_t)(4 * D + 1))); return; }
